@@ -1247,6 +1247,25 @@ tsk_individual_table_set_columns(tsk_individual_table_t *self, tsk_size_t num_ro
 {
     int ret;
 
+    /* Check all the offset arrays before the table is cleared. */
+    if (location_offset != NULL) {
+        ret = check_offsets(num_rows, location_offset, 0, false);
+        if (ret != 0) {
+            goto out;
+        }
+    }
+    if (parents_offset != NULL) {
+        ret = check_offsets(num_rows, parents_offset, 0, false);
+        if (ret != 0) {
+            goto out;
+        }
+    }
+    if (metadata_offset != NULL) {
+        ret = check_offsets(num_rows, metadata_offset, 0, false);
+        if (ret != 0) {
+            goto out;
+        }
+    }
     ret = tsk_individual_table_clear(self);
     if (ret != 0) {
         goto out;
@@ -1338,6 +1357,26 @@ tsk_individual_table_append_columns(tsk_individual_table_t *self, tsk_size_t num
         ret = tsk_trace_error(TSK_ERR_BAD_PARAM_VALUE);
         goto out;
     }
+    /* Check all the offset arrays before anything is changed, so that a
+     * bad input leaves the table as it was. */
+    if (location_offset != NULL) {
+        ret = check_offsets(num_rows, location_offset, 0, false);
+        if (ret != 0) {
+            goto out;
+        }
+    }
+    if (parents_offset != NULL) {
+        ret = check_offsets(num_rows, parents_offset, 0, false);
+        if (ret != 0) {
+            goto out;
+        }
+    }
+    if (metadata_offset != NULL) {
+        ret = check_offsets(num_rows, metadata_offset, 0, false);
+        if (ret != 0) {
+            goto out;
+        }
+    }
     ret = tsk_individual_table_expand_main_columns(self, (tsk_size_t) num_rows);
     if (ret != 0) {
         goto out;
@@ -1349,10 +1388,6 @@ tsk_individual_table_append_columns(tsk_individual_table_t *self, tsk_size_t num
                 = (tsk_size_t) self->location_length;
         }
     } else {
-        ret = check_offsets(num_rows, location_offset, 0, false);
-        if (ret != 0) {
-            goto out;
-        }
         for (j = 0; j < num_rows; j++) {
             self->location_offset[self->num_rows + j]
                 = (tsk_size_t) self->location_length + location_offset[j];
@@ -1372,10 +1407,6 @@ tsk_individual_table_append_columns(tsk_individual_table_t *self, tsk_size_t num
                 = (tsk_size_t) self->parents_length;
         }
     } else {
-        ret = check_offsets(num_rows, parents_offset, 0, false);
-        if (ret != 0) {
-            goto out;
-        }
         for (j = 0; j < num_rows; j++) {
             self->parents_offset[self->num_rows + j]
                 = (tsk_size_t) self->parents_length + parents_offset[j];
@@ -1395,10 +1426,6 @@ tsk_individual_table_append_columns(tsk_individual_table_t *self, tsk_size_t num
                 = (tsk_size_t) self->metadata_length;
         }
     } else {
-        ret = check_offsets(num_rows, metadata_offset, 0, false);
-        if (ret != 0) {
-            goto out;
-        }
         for (j = 0; j < num_rows; j++) {
             self->metadata_offset[self->num_rows + j]
                 = (tsk_size_t) self->metadata_length + metadata_offset[j];
@@ -2102,6 +2129,13 @@ tsk_node_table_set_columns(tsk_node_table_t *self, tsk_size_t num_rows,
 {
     int ret;
 
+    /* Check all the offset arrays before the table is cleared. */
+    if (metadata_offset != NULL) {
+        ret = check_offsets(num_rows, metadata_offset, 0, false);
+        if (ret != 0) {
+            goto out;
+        }
+    }
     ret = tsk_node_table_clear(self);
     if (ret != 0) {
         goto out;
@@ -2169,6 +2203,14 @@ tsk_node_table_append_columns(tsk_node_table_t *self, tsk_size_t num_rows,
         ret = tsk_trace_error(TSK_ERR_BAD_PARAM_VALUE);
         goto out;
     }
+    /* Check all the offset arrays before anything is changed, so that a
+     * bad input leaves the table as it was. */
+    if (metadata_offset != NULL) {
+        ret = check_offsets(num_rows, metadata_offset, 0, false);
+        if (ret != 0) {
+            goto out;
+        }
+    }
     ret = tsk_node_table_expand_main_columns(self, num_rows);
     if (ret != 0) {
         goto out;
@@ -2180,10 +2222,6 @@ tsk_node_table_append_columns(tsk_node_table_t *self, tsk_size_t num_rows,
             self->metadata_offset[self->num_rows + j + 1] = self->metadata_length;
         }
     } else {
-        ret = check_offsets(num_rows, metadata_offset, 0, false);
-        if (ret != 0) {
-            goto out;
-        }
         for (j = 0; j < num_rows; j++) {
             self->metadata_offset[self->num_rows + j]
                 = (tsk_size_t) self->metadata_length + metadata_offset[j];
@@ -2910,6 +2948,13 @@ tsk_edge_table_set_columns(tsk_edge_table_t *self, tsk_size_t num_rows,
 {
     int ret = 0;
 
+    /* Check all the offset arrays before the table is cleared. */
+    if (metadata_offset != NULL) {
+        ret = check_offsets(num_rows, metadata_offset, 0, false);
+        if (ret != 0) {
+            goto out;
+        }
+    }
     ret = tsk_edge_table_clear(self);
     if (ret != 0) {
         goto out;
@@ -2979,6 +3024,14 @@ tsk_edge_table_append_columns(tsk_edge_table_t *self, tsk_size_t num_rows,
         goto out;
     }
 
+    /* Check all the offset arrays before anything is changed, so that a
+     * bad input leaves the table as it was. */
+    if (metadata_offset != NULL) {
+        ret = check_offsets(num_rows, metadata_offset, 0, false);
+        if (ret != 0) {
+            goto out;
+        }
+    }
     ret = tsk_edge_table_expand_main_columns(self, num_rows);
     if (ret != 0) {
         goto out;
@@ -2993,10 +3046,6 @@ tsk_edge_table_append_columns(tsk_edge_table_t *self, tsk_size_t num_rows,
                 self->metadata_offset[self->num_rows + j + 1] = self->metadata_length;
             }
         } else {
-            ret = check_offsets(num_rows, metadata_offset, 0, false);
-            if (ret != 0) {
-                goto out;
-            }
             for (j = 0; j < num_rows; j++) {
                 self->metadata_offset[self->num_rows + j]
                     = (tsk_size_t) self->metadata_length + metadata_offset[j];
@@ -3640,6 +3689,20 @@ tsk_site_table_append_columns(tsk_site_table_t *self, tsk_size_t num_rows,
         goto out;
     }
 
+    /* Check all the offset arrays before anything is changed, so that a
+     * bad input leaves the table as it was. */
+    if (metadata_offset != NULL) {
+        ret = check_offsets(num_rows, metadata_offset, 0, false);
+        if (ret != 0) {
+            goto out;
+        }
+    }
+    if (ancestral_state_offset != NULL) {
+        ret = check_offsets(num_rows, ancestral_state_offset, 0, false);
+        if (ret != 0) {
+            goto out;
+        }
+    }
     ret = tsk_site_table_expand_main_columns(self, num_rows);
     if (ret != 0) {
         goto out;
@@ -3652,10 +3715,6 @@ tsk_site_table_append_columns(tsk_site_table_t *self, tsk_size_t num_rows,
             self->metadata_offset[self->num_rows + j + 1] = self->metadata_length;
         }
     } else {
-        ret = check_offsets(num_rows, metadata_offset, 0, false);
-        if (ret != 0) {
-            goto out;
-        }
         metadata_length = metadata_offset[num_rows];
         ret = tsk_site_table_expand_metadata(self, metadata_length);
         if (ret != 0) {
@@ -3672,10 +3731,6 @@ tsk_site_table_append_columns(tsk_site_table_t *self, tsk_size_t num_rows,
     self->metadata_offset[self->num_rows + num_rows] = self->metadata_length;
 
     /* Ancestral state column */
-    ret = check_offsets(num_rows, ancestral_state_offset, 0, false);
-    if (ret != 0) {
-        goto out;
-    }
     ancestral_state_length = ancestral_state_offset[num_rows];
     ret = tsk_site_table_expand_ancestral_state(self, ancestral_state_length);
     if (ret != 0) {
@@ -3728,6 +3783,19 @@ tsk_site_table_set_columns(tsk_site_table_t *self, tsk_size_t num_rows,
 {
     int ret = 0;
 
+    /* Check all the offset arrays before the table is cleared. */
+    if (metadata_offset != NULL) {
+        ret = check_offsets(num_rows, metadata_offset, 0, false);
+        if (ret != 0) {
+            goto out;
+        }
+    }
+    if (ancestral_state_offset != NULL) {
+        ret = check_offsets(num_rows, ancestral_state_offset, 0, false);
+        if (ret != 0) {
+            goto out;
+        }
+    }
     ret = tsk_site_table_clear(self);
     if (ret != 0) {
         goto out;
@@ -4360,6 +4428,20 @@ tsk_mutation_table_append_columns(tsk_mutation_table_t *self, tsk_size_t num_row
         goto out;
     }
 
+    /* Check all the offset arrays before anything is changed, so that a
+     * bad input leaves the table as it was. */
+    if (metadata_offset != NULL) {
+        ret = check_offsets(num_rows, metadata_offset, 0, false);
+        if (ret != 0) {
+            goto out;
+        }
+    }
+    if (derived_state_offset != NULL) {
+        ret = check_offsets(num_rows, derived_state_offset, 0, false);
+        if (ret != 0) {
+            goto out;
+        }
+    }
     ret = tsk_mutation_table_expand_main_columns(self, num_rows);
     if (ret != 0) {
         goto out;
@@ -4388,10 +4470,6 @@ tsk_mutation_table_append_columns(tsk_mutation_table_t *self, tsk_size_t num_row
             self->metadata_offset[self->num_rows + j + 1] = self->metadata_length;
         }
     } else {
-        ret = check_offsets(num_rows, metadata_offset, 0, false);
-        if (ret != 0) {
-            goto out;
-        }
         metadata_length = metadata_offset[num_rows];
         ret = tsk_mutation_table_expand_metadata(self, metadata_length);
         if (ret != 0) {
@@ -4408,10 +4486,6 @@ tsk_mutation_table_append_columns(tsk_mutation_table_t *self, tsk_size_t num_row
     self->metadata_offset[self->num_rows + num_rows] = self->metadata_length;
 
     /* Derived state column */
-    ret = check_offsets(num_rows, derived_state_offset, 0, false);
-    if (ret != 0) {
-        goto out;
-    }
     derived_state_length = derived_state_offset[num_rows];
     ret = tsk_mutation_table_expand_derived_state(self, derived_state_length);
     if (ret != 0) {
@@ -4527,6 +4601,19 @@ tsk_mutation_table_set_columns(tsk_mutation_table_t *self, tsk_size_t num_rows,
 {
     int ret = 0;
 
+    /* Check all the offset arrays before the table is cleared. */
+    if (metadata_offset != NULL) {
+        ret = check_offsets(num_rows, metadata_offset, 0, false);
+        if (ret != 0) {
+            goto out;
+        }
+    }
+    if (derived_state_offset != NULL) {
+        ret = check_offsets(num_rows, derived_state_offset, 0, false);
+        if (ret != 0) {
+            goto out;
+        }
+    }
     ret = tsk_mutation_table_clear(self);
     if (ret != 0) {
         goto out;
@@ -5031,6 +5118,14 @@ tsk_migration_table_append_columns(tsk_migration_table_t *self, tsk_size_t num_r
         goto out;
     }
 
+    /* Check all the offset arrays before anything is changed, so that a
+     * bad input leaves the table as it was. */
+    if (metadata_offset != NULL) {
+        ret = check_offsets(num_rows, metadata_offset, 0, false);
+        if (ret != 0) {
+            goto out;
+        }
+    }
     ret = tsk_migration_table_expand_main_columns(self, num_rows);
     if (ret != 0) {
         goto out;
@@ -5046,10 +5141,6 @@ tsk_migration_table_append_columns(tsk_migration_table_t *self, tsk_size_t num_r
             self->metadata_offset[self->num_rows + j + 1] = self->metadata_length;
         }
     } else {
-        ret = check_offsets(num_rows, metadata_offset, 0, false);
-        if (ret != 0) {
-            goto out;
-        }
         for (j = 0; j < num_rows; j++) {
             self->metadata_offset[self->num_rows + j]
                 = (tsk_size_t) self->metadata_length + metadata_offset[j];
@@ -5140,6 +5231,13 @@ tsk_migration_table_set_columns(tsk_migration_table_t *self, tsk_size_t num_rows
 {
     int ret;
 
+    /* Check all the offset arrays before the table is cleared. */
+    if (metadata_offset != NULL) {
+        ret = check_offsets(num_rows, metadata_offset, 0, false);
+        if (ret != 0) {
+            goto out;
+        }
+    }
     ret = tsk_migration_table_clear(self);
     if (ret != 0) {
         goto out;
@@ -5678,6 +5776,13 @@ tsk_population_table_set_columns(tsk_population_table_t *self, tsk_size_t num_ro
 {
     int ret;
 
+    /* Check all the offset arrays before the table is cleared. */
+    if (metadata_offset != NULL) {
+        ret = check_offsets(num_rows, metadata_offset, 0, false);
+        if (ret != 0) {
+            goto out;
+        }
+    }
     ret = tsk_population_table_clear(self);
     if (ret != 0) {
         goto out;
@@ -5698,15 +5803,19 @@ tsk_population_table_append_columns(tsk_population_table_t *self, tsk_size_t num
         ret = tsk_trace_error(TSK_ERR_BAD_PARAM_VALUE);
         goto out;
     }
+    /* Check all the offset arrays before anything is changed, so that a
+     * bad input leaves the table as it was. */
+    if (metadata_offset != NULL) {
+        ret = check_offsets(num_rows, metadata_offset, 0, false);
+        if (ret != 0) {
+            goto out;
+        }
+    }
     ret = tsk_population_table_expand_main_columns(self, num_rows);
     if (ret != 0) {
         goto out;
     }
 
-    ret = check_offsets(num_rows, metadata_offset, 0, false);
-    if (ret != 0) {
-        goto out;
-    }
     for (j = 0; j < num_rows; j++) {
         self->metadata_offset[self->num_rows + j]
             = self->metadata_length + metadata_offset[j];
@@ -6262,6 +6371,19 @@ tsk_provenance_table_set_columns(tsk_provenance_table_t *self, tsk_size_t num_ro
 {
     int ret;
 
+    /* Check all the offset arrays before the table is cleared. */
+    if (timestamp_offset != NULL) {
+        ret = check_offsets(num_rows, timestamp_offset, 0, false);
+        if (ret != 0) {
+            goto out;
+        }
+    }
+    if (record_offset != NULL) {
+        ret = check_offsets(num_rows, record_offset, 0, false);
+        if (ret != 0) {
+            goto out;
+        }
+    }
     ret = tsk_provenance_table_clear(self);
     if (ret != 0) {
         goto out;
@@ -6285,15 +6407,25 @@ tsk_provenance_table_append_columns(tsk_provenance_table_t *self, tsk_size_t num
         ret = tsk_trace_error(TSK_ERR_BAD_PARAM_VALUE);
         goto out;
     }
+    /* Check all the offset arrays before anything is changed, so that a
+     * bad input leaves the table as it was. */
+    if (timestamp_offset != NULL) {
+        ret = check_offsets(num_rows, timestamp_offset, 0, false);
+        if (ret != 0) {
+            goto out;
+        }
+    }
+    if (record_offset != NULL) {
+        ret = check_offsets(num_rows, record_offset, 0, false);
+        if (ret != 0) {
+            goto out;
+        }
+    }
     ret = tsk_provenance_table_expand_main_columns(self, num_rows);
     if (ret != 0) {
         goto out;
     }
 
-    ret = check_offsets(num_rows, timestamp_offset, 0, false);
-    if (ret != 0) {
-        goto out;
-    }
     for (j = 0; j < num_rows; j++) {
         self->timestamp_offset[self->num_rows + j]
             = self->timestamp_length + timestamp_offset[j];
@@ -6307,10 +6439,6 @@ tsk_provenance_table_append_columns(tsk_provenance_table_t *self, tsk_size_t num
         timestamp_length * sizeof(char));
     self->timestamp_length += timestamp_length;
 
-    ret = check_offsets(num_rows, record_offset, 0, false);
-    if (ret != 0) {
-        goto out;
-    }
     for (j = 0; j < num_rows; j++) {
         self->record_offset[self->num_rows + j] = self->record_length + record_offset[j];
     }
